@@ -1521,6 +1521,15 @@ method or constructor of some type."""
                                        str(origin_node.create_type()),
                                        str(func.retval.type)))
                     return False
+            if parent != target:
+                # Reached GObject.Object without meeting the returned class
+                message.warn_node(func,
+                                  "Return value is not superclass for constructor; "
+                                  "symbol='%s' constructed='%s' return='%s'" %
+                                  (func.symbol,
+                                   str(origin_node.create_type()),
+                                   str(func.retval.type)))
+                return False
         else:
             if origin_node != target:
                 message.warn_node(func,
